@@ -571,6 +571,12 @@ class CoreMixin:
         if op == "Phi" and _depth < 12:
             a, b = obj.args[1], obj.args[2]
             if any(x.op in ("Obj", "Module", "Class", "Phi", "Closure", "Dict", "Cfg") for x in (a, b)):
+                # an attribute of None raises: that alternative contributes no value (the usual `x is None` guard
+                # keeps the access from being reached there)
+                none_a = a.op == "Const" and a.attr is None
+                none_b = b.op == "Const" and b.attr is None
+                if none_a != none_b:
+                    return self.load_attr(b if none_a else a, name, st, fr, site, _depth + 1)
                 va = self.load_attr(a, name, st, fr, site, _depth + 1) if a.op != "Undefined" else a
                 vb = self.load_attr(b, name, st, fr, site, _depth + 1) if b.op != "Undefined" else b
                 return self.phi(obj.args[0], va, vb)
